@@ -43,6 +43,7 @@ type Exec struct {
 	sliceParts map[string][4]string
 	heapValT map[string]types.Type // heap array name -> Go type of the stored values
 	reveal   map[string]bool
+	subDone  map[string]bool
 }
 
 type storeDef struct {
@@ -185,9 +186,9 @@ func (e *Exec) rangeFact(x string, t types.Type, st *State) string {
 	}
 	switch t.Underlying().(type) {
 	case *types.Pointer, *types.Map, *types.Chan, *types.Signature:
-		return "(<= " + x + " " + e.top(st) + ")"
+		return "(and (>= " + x + " (- 1000)) (<= " + x + " " + e.top(st) + "))"
 	case *types.Slice:
-		return "(and (<= "+e.sbase(x)+" " + e.top(st) + ") (>= "+e.soff(x)+" 0) (>= "+e.slen(x)+" 0) (<= "+e.slen(x)+" "+e.scap(x)+") (<= "+e.scap(x)+" 4611686018427387904) (=> (= "+e.sbase(x)+" 0) (= "+e.scap(x)+" 0)))"
+		return "(and (>= "+e.sbase(x)+" (- 1000)) (<= "+e.sbase(x)+" " + e.top(st) + ") (>= "+e.soff(x)+" 0) (>= "+e.slen(x)+" 0) (<= "+e.slen(x)+" "+e.scap(x)+") (<= "+e.scap(x)+" 4611686018427387904) (=> (= "+e.sbase(x)+" 0) (= "+e.scap(x)+" 0)))"
 	}
 	return "true"
 }
@@ -397,15 +398,15 @@ func (e *Exec) wellFormed(name, sym string, st *State) {
 		ks2, _, _ := arrayParts(vs2)
 		v := Sel(Sel(sym, r), i)
 		if ks2 != SInt {
-			e.Out.Assert("(forall ((" + r + " Int) (" + i + " " + string(ks2) + ")) (! (=> (<= " + r + " " + e.top(st) + ") " + e.rangeFact(v, t, st) + ") :pattern (" + v + ")))")
+			e.Out.Assert("(forall ((" + r + " Int) (" + i + " " + string(ks2) + ")) (! (=> (<= (owner " + r + ") " + e.top(st) + ") " + e.rangeFact(v, t, st) + ") :pattern (" + v + ")))")
 			return
 		}
 		// only allocated rows are constrained: unallocated space stands for whatever a callee allocates later
-		e.Out.Assert("(forall ((" + r + " Int) (" + i + " Int)) (! (=> (<= " + r + " " + e.top(st) + ") " + e.rangeFact(v, t, st) + ") :pattern (" + v + ")))")
+		e.Out.Assert("(forall ((" + r + " Int) (" + i + " Int)) (! (=> (<= (owner " + r + ") " + e.top(st) + ") " + e.rangeFact(v, t, st) + ") :pattern (" + v + ")))")
 		return
 	}
 	v := Sel(sym, r)
-	e.Out.Assert("(forall ((" + r + " Int)) (! (=> (<= " + r + " " + e.top(st) + ") " + e.rangeFact(v, t, st) + ") :pattern (" + v + ")))")
+	e.Out.Assert("(forall ((" + r + " Int)) (! (=> (<= (owner " + r + ") " + e.top(st) + ") " + e.rangeFact(v, t, st) + ") :pattern (" + v + ")))")
 }
 
 func (e *Exec) mapHeaps(m *types.Map) (dom, val string, ds, vs Sort) {
@@ -417,6 +418,9 @@ func (e *Exec) mapHeaps(m *types.Map) (dom, val string, ds, vs Sort) {
 
 // loadAddr reads through an address in the given state.
 func (e *Exec) loadAddr(a *Addr, st *State) string {
+	if a.Kind == "field" && a.Ty != nil && isStructT(a.Ty) {
+		return e.loadStruct(a.Ty, e.subRef(a.Heap, a.Ref), st)
+	}
 	switch a.Kind {
 	case "field", "cell":
 		return e.read1(e.get(st, a.Heap, a.HS), a.Ref)
@@ -434,6 +438,10 @@ func (e *Exec) loadAddr(a *Addr, st *State) string {
 }
 
 func (e *Exec) storeAddr(a *Addr, st *State, v string) {
+	if a.Kind == "field" && a.Ty != nil && isStructT(a.Ty) {
+		e.storeStruct(a.Ty, e.subRef(a.Heap, a.Ref), v, st)
+		return
+	}
 	switch a.Kind {
 	case "field", "cell", "row":
 		e.write1(st, a.Heap, a.HS, a.Ref, v)
@@ -978,7 +986,7 @@ func (e *Exec) enterLoop(fr *Frame, h *ssa.BasicBlock) (*State, string) {
 			// written through a loop-invariant reference keeps its value
 			nh := e.havoc(st, name, sort)
 			r := e.Out.FreshName("r")
-			conds := []string{"(<= " + r + " " + topEntry + ")"}
+			conds := []string{"(<= (owner " + r + ") " + topEntry + ")"}
 			for _, ref := range mi.refs {
 				conds = append(conds, Not(Eq(r, ref)))
 			}
@@ -1088,7 +1096,7 @@ func (e *Exec) dryRun(fr *Frame, h *ssa.BasicBlock, loopOrder []*ssa.BasicBlock,
 				mi.whole = true
 				break
 			}
-			if fresh[w.ref] && e.allocSyms[w.ref] {
+			if root := subRoot(w.ref); fresh[root] && e.allocSyms[root] {
 				mi.allocs = true
 				continue
 			}
@@ -1457,4 +1465,123 @@ func (e *Exec) defSlice(fr *Frame, x ssa.Value, base, off, ln, cp string) Val {
 	}
 	e.sliceParts[v.T] = [4]string{base, off, ln, cp}
 	return v
+}
+
+// ---- nested structs: a struct-typed field lives at a sub-reference of its enclosing object ----
+
+func isStructT(t types.Type) bool {
+	_, ok := t.Underlying().(*types.Struct)
+	return ok
+}
+
+// subRef is the pseudo-reference of the struct stored in field 'heap' (H$T.f) of the object at ref.
+func (e *Exec) subRef(heap, ref string) string {
+	f := e.Out.DeclareFun("addr$"+heap, []Sort{SInt}, SInt)
+	t := App(f, ref)
+	if e.subDone == nil {
+		e.subDone = map[string]bool{}
+	}
+	if !e.subDone[t] && !strings.Contains(t, "q$") && !strings.Contains(t, "lt$") && !strings.Contains(t, "wf$") && !strings.Contains(t, "frame$") {
+		if _, live := e.Out.declared[Sym("addr$"+heap)]; live {
+			e.subDone[t] = true
+			inv := e.Out.DeclareFun("inv$"+heap, []Sort{SInt}, SInt)
+			// sub-references live in their own (negative) region, belong to the enclosing object, and are injective
+			e.Out.Assert("(and (< " + t + " (- 1000)) (= (owner " + t + ") (owner " + ref + ")) (= " + App(inv, t) + " " + ref + "))")
+		}
+	}
+	return t
+}
+
+// loadStruct builds the value (token) of the struct of type t whose fields live at ref.
+func (e *Exec) loadStruct(t types.Type, ref string, st *State) string {
+	su := t.Underlying().(*types.Struct)
+	if su.NumFields() == 0 {
+		return "0"
+	}
+	var fsorts []Sort
+	var fterms []string
+	for i := 0; i < su.NumFields(); i++ {
+		h, hs, ft := e.fieldHeap(t, i)
+		fsorts = append(fsorts, e.sortOf(ft))
+		if isStructT(ft) {
+			fterms = append(fterms, e.loadStruct(ft, e.subRef(h, ref), st))
+		} else {
+			fterms = append(fterms, e.read1(e.get(st, h, hs), ref))
+		}
+	}
+	mk := e.Out.DeclareFun("mk$"+e.typeName(t), fsorts, SInt)
+	tok := App(mk, fterms...)
+	for i := 0; i < su.NumFields(); i++ {
+		_, _, ft := e.fieldHeap(t, i)
+		proj := e.Out.DeclareFun("SF$"+e.typeName(t)+"."+su.Field(i).Name(), []Sort{SInt}, e.sortOf(ft))
+		if !strings.Contains(tok, "q$") && !strings.Contains(tok, "lt$") {
+			e.Out.Assert(Eq(App(proj, tok), fterms[i]))
+		}
+	}
+	return tok
+}
+
+// storeStruct writes the struct value v of type t field-wise at ref.
+func (e *Exec) storeStruct(t types.Type, ref, v string, st *State) {
+	su := t.Underlying().(*types.Struct)
+	if su.NumFields() == 0 {
+		return
+	}
+	var fsorts []Sort
+	var projs []string
+	for i := 0; i < su.NumFields(); i++ {
+		_, _, ft := e.fieldHeap(t, i)
+		fsorts = append(fsorts, e.sortOf(ft))
+		proj := e.Out.DeclareFun("SF$"+e.typeName(t)+"."+su.Field(i).Name(), []Sort{SInt}, e.sortOf(ft))
+		projs = append(projs, App(proj, v))
+	}
+	mk := e.Out.DeclareFun("mk$"+e.typeName(t), fsorts, SInt)
+	e.Out.Assert(Eq(App(mk, projs...), v))
+	for i := 0; i < su.NumFields(); i++ {
+		h, hs, ft := e.fieldHeap(t, i)
+		if isStructT(ft) {
+			e.storeStruct(ft, e.subRef(h, ref), projs[i], st)
+		} else {
+			e.write1(st, h, hs, ref, projs[i])
+		}
+	}
+}
+
+// zeroStructAt zero-initialises the fields of a struct of type t at ref.
+func (e *Exec) zeroStructAt(t types.Type, ref string, st *State) {
+	su := t.Underlying().(*types.Struct)
+	for i := 0; i < su.NumFields(); i++ {
+		h, hs, ft := e.fieldHeap(t, i)
+		if isStructT(ft) {
+			e.zeroStructAt(ft, e.subRef(h, ref), st)
+		} else {
+			e.write1(st, h, hs, ref, e.zeroOf(ft))
+		}
+	}
+}
+
+// subRoot strips sub-reference wrappers "(addr$H... X)" and returns the innermost reference term.
+func subRoot(ref string) string {
+	for strings.HasPrefix(ref, "(addr$") || strings.HasPrefix(ref, "(|addr$") {
+		// "(f arg)": find the space that separates the function symbol from its single argument
+		i := 1
+		if ref[1] == '|' {
+			j := strings.IndexByte(ref[2:], '|')
+			if j < 0 {
+				return ref
+			}
+			i = j + 3
+		} else {
+			j := strings.IndexByte(ref, ' ')
+			if j < 0 {
+				return ref
+			}
+			i = j
+		}
+		if i >= len(ref) || ref[i] != ' ' {
+			return ref
+		}
+		ref = ref[i+1 : len(ref)-1]
+	}
+	return ref
 }
